@@ -25,6 +25,12 @@ Lists(cat) ==
         \cup {[i \in 1 .. n |-> Nm(names[i], "lower")], [i \in 1 .. n |-> Nm(names[n + 1 - i], "mixed")]}
         \cup {<<Nm(u, "lower")>> : u \in UnknownBases \cup {Foreign(cat)}}
         \cup {<<Nm(names[1], "lower"), Nm("unknown_pattern", "lower")>>, <<Nm("unknown_pattern", "lower"), Nm(names[1], "lower")>>}
+        \* an unknown name at the end, in the middle and at the head of a list that names EVERY pattern of the category
+        \* (nothing is left to select by then -- the name is unknown all the same), also behind a repeated name
+        \cup (LET full == [i \in 1 .. n |-> Nm(names[i], IF i % 2 = 0 THEN "lower" ELSE "upper")]
+                  unk == Nm("unknown_pattern", "lower")
+              IN {Append(full, unk), <<unk>> \o full, SubSeq(full, 1, n - 1) \o <<unk, full[n]>>,
+                  full \o <<full[1], Nm(Foreign(cat), "lower")>>})
 
 TomlOf(path, o, v, q) == <<[path |-> path, optimizations |-> o, vulnerabilities |-> v, qa |-> q]>>
 First(cat) == <<Nm(Catalogue[cat][1], "lower")>>
